@@ -541,6 +541,41 @@ fn op_time(payload: &str, args: &[&str]) -> String {
 
 /// Runs one op. `payload` is the decoded text, `args` are the raw extra
 /// tab-separated fields. May panic (caller catches).
+/// `par` — arg1 = inner op, remaining args passed through: run the inner op on this thread and on
+/// four fresh threads; answer the common response, or `nondeterministic <a> <b>` when two differ
+/// (C11: same text, other thread, equal value and identical serialisation).
+fn op_par(payload: &str, args: &[&str]) -> String {
+    let inner = match args.first() {
+        Some(i) if *i != "par" && *i != "time" => i.to_string(),
+        _ => return bad(),
+    };
+    let rest: Vec<String> = args[1..].iter().map(|s| s.to_string()).collect();
+    let run = move |payload: String, inner: String, rest: Vec<String>| -> String {
+        let refs: Vec<&str> = rest.iter().map(String::as_str).collect();
+        match catch_unwind(AssertUnwindSafe(|| dispatch(&inner, &payload, &refs))) {
+            Ok(r) => r,
+            Err(_) => PANIC.to_string(),
+        }
+    };
+    let first = run(payload.to_string(), inner.clone(), rest.clone());
+    let mut handles = Vec::new();
+    for _ in 0..4 {
+        let (p, i, r) = (payload.to_string(), inner.clone(), rest.clone());
+        handles.push(std::thread::spawn(move || run(p, i, r)));
+    }
+    for h in handles {
+        match h.join() {
+            Ok(r) => {
+                if r != first {
+                    return format!("nondeterministic {} {}", first, r);
+                }
+            }
+            Err(_) => return PANIC.to_string(),
+        }
+    }
+    first
+}
+
 pub fn dispatch(op: &str, payload: &str, args: &[&str]) -> String {
     match op {
         "lines" => return op_lines(payload),
@@ -560,6 +595,7 @@ pub fn dispatch(op: &str, payload: &str, args: &[&str]) -> String {
         "f32:Float" => return op_f32_float(payload),
         "f32:UFloat" => return op_f32_ufloat(payload),
         "time" => return op_time(payload, args),
+        "par" => return op_par(payload, args),
         "build_media" => return crate::builders::op_build_media(payload),
         "build_master" => return crate::builders::op_build_master(payload),
         _ => {}
